@@ -109,6 +109,32 @@ reg('C13', 'model_checking',
     'points are checked for pairwise distinctness only.',
     'exhaustive operation-sequence exploration on the real code under a controlled random source', 'DESIGN.md 2/C13')
 
+reg('C18', 'model_checking',
+    'Product of 43 fixture keys (every algorithm / curve, plus keys whose public or secret integers have leading zero octets or odd sizes: 2047-bit modulus, '
+    'e=3, short DSA y, EC coordinates and Ed25519 / Curve25519 points with a zero top or last octet) x 12 creation times (0, 1, DST edges, 2^31-1, 2^31, 2^32-1) '
+    'x 4 process time zones x producer (reference-encoded import; time set through the API as aware-UTC and aware non-UTC datetime; generated by PGPy) x 8 object '
+    'forms (private, public twin, copy, binary / armored re-import, protected, unlocked, locked again); fingerprint and key id must equal SHA-1 over 0x99, '
+    'length and the exported public-key packet, which itself must equal the reference encoding; plus issuer / issuer-fingerprint / recipient ids written by PGPy.',
+    'The SHA-1 is computed by the reference from PGPy\'s exported packet and, independently, from the raw numbers. Intermediate creation times are covered at 12 boundary values.',
+    'exhaustive enumeration of key x time x zone x form on the real code vs. RFC 4880 12.2', 'DESIGN.md 2/C18')
+
+reg('C10', 'model_checking',
+    'Every payload length 1..400 (thorough 1..3000) x 4 fills through the real Armorable.__str__ / ascii_unarmor with 3 header sets and 5 input forms (str, '
+    'bytes, bytearray, CRLF, surrounded by other text), checked against an independent radix-64 / CRC-24 / armor-framing decoder (payload, label, <= 76 columns, '
+    'headers, CRC); 9 real objects (public / private / large keys, literal / signed / encrypted messages, detached signature, cleartext message) x header sets x '
+    'forms; every (loader class, block kind) pair; and for 10 payloads every single-character substitution of the radix-64 body and CRC line by {next '
+    'alphabet character, =, space, !}: unless payload and CRC still agree PGPy must raise or emit the CRC warning.',
+    'Trusted: refpgp.armor (bitwise CRC-24, own radix-64). Reading armor headers back is not part of the property and is not demanded.',
+    'exhaustive enumeration + exhaustive single-character fault enumeration on the real armor codec', 'DESIGN.md 2/C10')
+
+reg('C11', 'model_checking',
+    'Every sequence of 0..3 lines over a 15-line adversarial alphabet x {LF, CRLF} x {final line end, none} (14 464 texts; thorough adds 4-line texts over a '
+    'reduced alphabet): PGPy writes the cleartext message, an independent RFC 4880 section 7 reader checks dash-escaping, the Hash header and un-escaping and '
+    'verifies the signature over the 7.1 canonical text; PGPy reads its own output back (same text, same signatures, verifies); the reference writes and signs '
+    'the same text and PGPy must verify it; 6 hashes x 6 signer sets (Ed25519, RSA, ECDSA, DSA, two signers) on a slice.',
+    'Trusted: refpgp.armor / refpgp.sig. Texts containing a lone CR are excluded (RFC 4880 does not define whether it ends a line).',
+    'exhaustive text enumeration on the real writer / reader / signer / verifier, differential against an independent implementation', 'DESIGN.md 2/C11')
+
 ALL = ['C%02d' % i for i in range(1, 21)]
 
 NOT_YET = 'check not built yet in this revision of /verif (work in progress; see DESIGN.md section 8)'
